@@ -17,7 +17,7 @@ RULE = ("every expression tree of depth <= 1 over From/FromSlice/TakeWhile/DropW
         "(source slices of length 0..3, From, join-argument leaves), 7 predicates (<c, !=c, parity, true, false), 3 maps, "
         "3 slice-returning join functions (replicate, range, nil) and 8 nested-expression join functions; at depth 2 every unary "
         "operator over every depth-1 tree, Plus of every depth-1 tree with every leaf on either side and a seeded sample of "
-        "Plus(depth 1, depth 1); seeded random trees of depth 3..6 (thorough: ..7, slices up to length 6). Each tree is built "
+        "Plus(depth 1, depth 1); seeded random trees of depth 3..6 (thorough: ..7, slices up to length 6; random trees with more than 1500 result elements or 4000 constructor/join-function calls are skipped). Each tree is built "
         "from the real constructors, drained with the documented loop and (depth <= 1: always, deeper: sampled) consumed by "
         "seq.ForEach with a callback failing at call 0/1/2/never or on a predicate. A case is distinct by (tree, consumption mode) "
         "and non-trivial when the required list is non-empty")
